@@ -220,8 +220,13 @@ def emit_spec(pack, render_kw=None, tables_name="vf_tables.h", driver="vf_driver
         L.append("%s %s" % ("%x" if excl else "%s", name))
     L.append("%%")
     pack.line2group = {}
+    pack.line2rule = {}
+    _rn = 0
     for gi, r in pack.rules:
+        if not r.eof:
+            _rn += 1
         pack.line2group[sum(x.count("\n") + 1 for x in L) + 1] = gi
+        pack._cur_rule = _rn if not r.eof else None
         pre = ""
         if r.scs == '*':
             pre = "<*>"
@@ -233,16 +238,19 @@ def emit_spec(pack, render_kw=None, tables_name="vf_tables.h", driver="vf_driver
         if style == "scope" and pre:
             L.append(pre + "{")
             pack.line2group[sum(x.count("\n") + 1 for x in L) + 1] = gi
+            pack.line2rule[sum(x.count("\n") + 1 for x in L) + 1] = pack._cur_rule
             L.append(body)
             L.append("}")
         elif style == "nested" and r.scs not in (None, "*") and len(r.scs) > 1:
             for name in r.scs:
                 L.append("<%s>{" % name)
             pack.line2group[sum(x.count("\n") + 1 for x in L) + 1] = gi
+            pack.line2rule[sum(x.count("\n") + 1 for x in L) + 1] = pack._cur_rule
             L.append(body)
             for name in r.scs:
                 L.append("}")
         else:
+            pack.line2rule[sum(x.count("\n") + 1 for x in L) + 1] = pack._cur_rule
             L.append(pre + body)
     L.append("%%")
     L.append('#include "%s"' % tables_name)
